@@ -303,8 +303,12 @@ def check_data_inputs_aligned(
 
             # Check pandas objects share the same index
             if check_index:
+                # the named arguments, whether they were passed by position or by keyword
                 pandas_args = [
-                    arg for arg in args if isinstance(arg, (pd.Series, pd.DataFrame))
+                    x
+                    for k, x in arguments.items()
+                    if (not args_to_check or k in args_to_check)
+                    and isinstance(x, (pd.Series, pd.DataFrame))
                 ]
                 if pandas_args:
                     first_index = pandas_args[0].index
